@@ -124,7 +124,14 @@ fn blank_line_variants(input: &str, tokens: &[LexerToken], fails: &mut Vec<(Stri
             // must be preceded by a non-whitespace token for "the line before it" to exist
             let first_nl = offset + text.find('\n').unwrap_or(0);
             let second_nl = first_nl + 1 + input[first_nl + 1..].find('\n').unwrap_or(0);
-            let variants: [(&str, usize, &str); 4] = [("trailing-space", first_nl, " "), ("trailing-tab", first_nl, "\t"), ("space-between", second_nl, " "), ("trailing-spaces-and-between", first_nl, " \t")];
+            let variants: [(&str, usize, &str); 6] = [
+                ("trailing-space", first_nl, " "),
+                ("trailing-tab", first_nl, "\t"),
+                ("space-between", second_nl, " "),
+                ("tab-between", second_nl, "\t"),
+                ("tab-and-spaces-between", second_nl, "\t  "),
+                ("trailing-spaces-and-between", first_nl, " \t"),
+            ];
             for (name, at, ins) in variants {
                 let mut v = String::with_capacity(input.len() + 4);
                 v.push_str(&input[..at]);
